@@ -349,7 +349,7 @@ nni_id_alloc(nni_id_map *m, uint64_t *idp, void *val)
 int
 nni_id_alloc32(nni_id_map *m, uint32_t *idp, void *val)
 {
-	uint64_t id;
+	uint64_t id = 0;
 	int      rv;
 	rv = nni_id_alloc(m, &id, val);
 	NNI_ASSERT(id < (1ULL << 32));
